@@ -274,6 +274,7 @@ parse_next_record_header:
         /* If there's handshake message waiting in outbuf then send it */
         if (ssl->outlen > 0)
         {
+            *alertDescription = SSL_ALERT_NONE;
             return SSL_SEND_RESPONSE;
         }
         else
